@@ -36,9 +36,9 @@ TECHNIQUE = (
     "sequences, real runner.Retry on a virtual-time asyncio loop, reference-model oracle"
 )
 RULE = (
-    "Case = outcome script (0-8 outcomes from 9 classes: ok, fail (success False), nondict (tuple/None), conn_timeout, conn_error, "
+    "Case = outcome script (0-8 outcomes, in the polling profile 9-36 mostly unsuccessful ones, from 9 classes: ok, fail (success False), nondict (tuple/None), conn_timeout, conn_error, "
     "sock_timeout, api408, api_other (400/404/409/429/500/503), transport_other (SerializationError/TransportError/SniffingError); "
-    "afterwards the delegate succeeds) x parameters (retries 0-5, 2^31, sys.maxsize-1, sys.maxsize or omitted, retry-until-success omitted/true/false, retry-wait-period "
+    "afterwards the delegate succeeds) x parameters (retries 0-5, 12-40 in the polling profile, 2^31, sys.maxsize-1, sys.maxsize or omitted, retry-until-success omitted/true/false, retry-wait-period "
     "omitted/0/0.25/0.5/2, retry-on-timeout and retry-on-error omitted/true/false, constructor default of retry-until-success) x a "
     "per-attempt service time from {0, 1/1024, 1/4} s; 1 in 4 generated cases invokes the same wrapper 2-3 times with the same params dict object (script replayed), another quarter runs two overlapping invocations (two clients of one worker) through the same wrapper. Exhaustive sub-domain: every sequence of length 0-4 over the 9 classes (7381) x "
     "parameter grid (quick: the 22 behaviourally distinct (attempt cap, retry-on-error, retry-on-timeout) combinations with rotating "
